@@ -2,7 +2,7 @@
    These lemmas stop computing to the stated results when a repair is missing from the source. *)
 From Coq Require Import List Bool NArith Arith.
 Import ListNotations.
-From Garden Require Import Imports ImportsProps gen.ImportsGen.
+From Garden Require Import Imports ImportsProps ImportsGeneral gen.ImportsGen.
 
 Lemma current_loader_values :
   option_map2 (fun e => (run_qualified e 0 10 1, run_qualified e 0 10 2, run_qualified e 0 10 3, run_qualified e 0 10 4,
@@ -27,3 +27,43 @@ Lemma current_loader_types_visible :
   option_map2 (fun e => (type_usable e 0 21, type_usable e 0 23, method_usable e 0 40 31)) (loaded loader_shape [main; lib])
   = Some (Resolved, Resolved, Resolved).
 Proof. intros main [<-|[<-|[]]]; vm_compute; reflexivity. Qed.
+
+(* ---- general theorems (ImportsGeneral.v) for the loader shape of the CURRENT source ---- *)
+Lemma loader_shape_is_fixed : loader_shape = shape_fixed.
+Proof. reflexivity. Qed.
+
+Section TiedGeneral.
+Variable proj : Project.
+Variable root fuel : nat.
+Variable e : Env.
+Hypothesis Hcons : consistent_marks proj.
+Hypothesis Hroot : root < length proj.
+Hypothesis Hload : load_root loader_shape proj fuel root = Ok e.
+
+Let Hload' : load_root shape_fixed proj fuel root = Ok e.
+Proof. rewrite <- loader_shape_is_fixed. exact Hload. Qed.
+
+Lemma exported_iff_public_tied : forall g, hasns e g = true -> forall x, exp e g x = pubp proj g x.
+Proof. exact (exported_iff_public_lemma proj root fuel e Hcons Hroot Hload'). Qed.
+Lemma qualified_visible_iff_public_tied : forall f a x,
+  run_qualified e f a x = Resolved <-> exists g, val e f a = Some (VNs g) /\ pubp proj g x = true.
+Proof. exact (qualified_visible_iff_public_lemma proj root fuel e Hcons Hroot Hload'). Qed.
+Lemma unqualified_visible_iff_tied : forall f, hasns e f = true -> forall x,
+  run_unqualified e f x = Resolved <-> allowed proj f x.
+Proof. exact (unqualified_visible_iff_lemma proj root fuel e Hcons Hroot Hload'). Qed.
+Lemma unqualified_import_complete_tied : forall f g x,
+  hasns e f = true -> import_plain proj f g -> pubp proj g x = true -> run_unqualified e f x = Resolved.
+Proof. exact (unqualified_import_complete_lemma proj root fuel e Hcons Hroot Hload'). Qed.
+Lemma unqualified_import_sound_tied : forall f x,
+  hasns e f = true -> run_unqualified e f x = Resolved ->
+  ~ In x prelude_names -> ~ declared proj f x -> (forall t, ~ import_alias proj f t x) ->
+  exists g, import_plain proj f g /\ pubp proj g x = true.
+Proof. exact (unqualified_import_sound_lemma proj root fuel e Hcons Hroot Hload'). Qed.
+Lemma loaded_tied : hasns e root = true /\ (forall g, hasns e g = true -> g < length proj) /\
+  (forall f a g, val e f a = Some (VNs g) -> hasns e g = true).
+Proof.
+  split; [exact (root_is_loaded proj root fuel e Hcons Hroot Hload')|].
+  split; [exact (loaded_files_exist_lemma proj root fuel e Hcons Hroot Hload')|].
+  exact (namespace_values_are_loaded_lemma proj root fuel e Hcons Hroot Hload').
+Qed.
+End TiedGeneral.
